@@ -34,12 +34,20 @@
     [_partial].  [_frag2]: the same with weights ([Frag.frag2], see
     Properties/C04.v and the note on [enumerates] in Properties/C05.v): stated
     for every enumerator [en] the model builds whose key list is defined.
-    [keys_count] for every design the model accepts (derived factors, several
-    crossings, preambles) is NOT proved.  [C06_loop_exhausts] is unconditional
+    [C06_keys_count] is [keys_count] for EVERY design: whatever enumerator the
+    model builds (derived factors, weights, several crossings, preambles, complex
+    windows) and whatever key list it lists for it, the keys are pairwise
+    distinct and there are [possible_keys] of them, provided the sequence is at
+    least as long as the preamble ([rounds_per_run >= 0]; otherwise Python's
+    [solution_count ** rounds_per_run] is not an integer).  The counting code
+    ([__count_solutions]: closed forms or [sum_combination_products]) and the
+    listing code ([generate_random_samples] draws, modelled by [all_keys]) take
+    different paths - without weights even different unrankers; they agree by the
+    C13 bijections (Random/KeysCount.v).  [C06_loop_exhausts] is unconditional
     (any key type, any acceptance test). *)
 From Coq Require Import ZArith List Bool.
 From SP Require Import Design.Flat Design.Sem Random.Enum Random.Frag Random.FragSem Random.Loop
-  Random.Frag0Enum Random.Frag2Thms Random.Frag1Thms Random.Frag0Thms Random.Frag0Loop Random.Frag0Example.
+  Random.Frag0Enum Random.Frag2Thms Random.Frag1Thms Random.Frag0Thms Random.Frag0Loop Random.Frag0Example Random.KeysCount.
 
 Theorem C06_accepted_exact_partial : forall (fb : flat), frag1 fb = true -> fl_errors_fail fb = false ->
   NoDup (map (cand_tseq fb) (accepted_keys fb)) /\
@@ -160,3 +168,10 @@ Proof.
   split; [exact ex3_frag2|]. split; [exact ex3_frag1|]. split; [exact ex3_enum|]. split; [exact ex3_nkeys|]. split; [exact ex3_nacc|].
   split; [exact ex3_nvalid | exact ex3_acount].
 Qed.
+
+(** the termination condition of the sampling loop, for every design the model accepts *)
+Theorem C06_keys_count : forall (fb : flat) (en : enumerator) (ks : list key),
+  make_enumerator fb = ROk en -> all_keys fb en = ROk ks -> (0 <= rounds_per_run fb en)%Z ->
+  NoDup ks /\ Z.of_nat (length ks) = possible_keys fb en.
+Proof. exact keys_count_general. Qed.
+Print Assumptions C06_keys_count.
